@@ -185,6 +185,31 @@ def run(tier, seed):
                     rep.violation('c20:basic-and-extended-behave-differently', {'source': tag, 'zone': n, 'basic_vs_zic': rb.get(n), 'extended_vs_zic': rx[n]})
     finally:
         shutil.rmtree(tmp, ignore_errors=True)
+    # (5b) state that survives between two compilations in ONE process: source B, then a source A that reuses B's policy and
+    # zone names with different content (multi-character letters, other offsets), then B again - B's files must not change
+    srcB = 'Rule\tPP\t1990\tmax\t-\tMar\tlastSun\t2:00\t1:00\tD\nRule\tPP\t1990\tmax\t-\tOct\tlastSun\t3:00\t0\tS\nZone\tR/one\t1:00\tPP\tX%sT\nZone\tR/two\t2:00\t-\tTWO\n'
+    srcA = 'Rule\tPP\t1990\tmax\t-\tApr\tSun>=1\t1:00u\t2:00\tCDT\nRule\tPP\t1990\tmax\t-\tSep\tlastSun\t1:00u\t0\tCST\nZone\tR/one\t-6:00\tPP\t%s\t2010 Jun 1\n\t\t\t-5:00\t-\tEST\nZone\tR/three\t3:00\t-\tTHR\nLink\tR/three\tR/two\n'
+    def gen_all(text):
+        out = {}
+        for scope in ('extended', 'basic'):
+            cmp_ = pipeline.compile_text(text, scope, strict=False)
+            for lang in ('arduino', 'python'):
+                dd = tempfile.mkdtemp(prefix='verif-c20r-')
+                try:
+                    pipeline.generate(cmp_, lang, dd)
+                    for f in sorted(os.listdir(dd)):
+                        out[(scope, lang, f)] = open(os.path.join(dd, f)).read()
+                finally:
+                    shutil.rmtree(dd, ignore_errors=True)
+        return out
+    b1 = gen_all(srcB); gen_all(srcA); b2 = gen_all(srcB)
+    cov['in_process_recompilations'] = 3
+    for kf in sorted(b1):
+        cov['files_compared'] += 1
+        if b1[kf] != b2.get(kf):
+            a_, b_ = b1[kf].splitlines(), (b2.get(kf) or '').splitlines()
+            i = next((i for i, (x, y) in enumerate(zip(a_, b_)) if x != y), min(len(a_), len(b_)))
+            rep.violation('c20:output-depends-on-earlier-compilation-in-the-same-process:%s:%s' % (kf[1], kf[2]), {'scope': kf[0], 'line': i + 1, 'first': a_[i][:200] if i < len(a_) else None, 'after_other_source': b_[i][:200] if i < len(b_) else None})
     # (6) the checked-in Python database loads and equals zic on its own recorded lines for every year of its range
     dbpy = os.path.join(runner.REPO, 'tools/zonedbpy')
     sys.path.insert(0, os.path.join(runner.REPO, 'tools'))
